@@ -147,9 +147,8 @@ def gen_rect(rng, mode, maxn):
         pts = list(zip(ys, xs))
         buf = b
     else:
+        # degenerate extents (a single point, all points on one line) are kept: the mesh is then 2e-8 wide on that axis
         buf = BUF_DEFAULT
-        ys, xs = [p[0] for p in pts], [p[1] for p in pts]
-        if min(ys) == max(ys) or min(xs) == max(xs): return None
     return {"op": "rect", "mode": mode, "m": m, "subs": subs, "grid": [[S(p[0]), S(p[1])] for p in pts],
             "shape": list(shape), "buffer": S(buf), "fsub": rng.random() < 0.3}
 
